@@ -6,10 +6,11 @@ import aglib
 import gen
 import qast
 from props.common import *
+from props import ext
 from props import aggoracle, pyref
 
 TRUSTED_BASE = ['the wildcard matcher is checked against Python\'s re on the regex that Keyword::to_regex is documented to build (escape, (?i), space -> \\s, * -> (.*?), trailing * -> $); the regex crate itself is not modelled',
-                'parse regex (user regexes) is checked on a regex subset on which Python re and the regex crate agree; it is outside the Coq model']
+                'parse regex: the regex crate is an oracle; the Coq matcher (Regex.v) covers a subset (literals, classes, . \\d \\w \\s on ASCII text, greedy/lazy * + ? {m,n}, groups, alternation, ^ $) and is compared with the binary on generated patterns; everything else is outside the model']
 ASSUMPTIONS = ['patterns and case-varied text use ASCII letters (Unicode case folding of the regex crate is outside the model)']
 
 LITS = ['a', 'b', 'ab', 'GET', 'id', '=', ':', ' ', '  ', '\t', '[', ']', '(', ')', '.', '+', '?', '|', '^', '$', '{', '}', '\\', '/', '-', '"', "'", ',', 'x.y', 'é', '#', '&', '~']
@@ -163,6 +164,11 @@ def explore(ctx):
         nrx += len(lines)
         if got is None or len(got) != len(want) or any(not aglib.same(g, w) for g, w in zip(got, want)):
             failures.append({'kind': 'spec', 'what': 'parse regex %s: got %r expected %r' % (rx, got, want), 'payload': {'query': q, 'input_lines': lines}})
+    # generated user regexes with named groups (classes, greedy and lazy quantifiers, alternation, optional groups, anchors):
+    # the binary against the Coq matcher (Regex.v, leftmost-first) and against Python's re as a second reading
+    n_rx, nt_rx, f_rx, st_rx = ext.rx_family(rng, quick)
+    failures += f_rx
+    nrx += n_rx
     kinds = {}
     for r in results:
         kinds[r['model']['kind']] = kinds.get(r['model']['kind'], 0) + 1
@@ -173,6 +179,7 @@ def explore(ctx):
                 'parse regex on a common subset; non-trivial = >=2 wildcards',
         'samples': samples_of([c for c in cases if 'parse' in c.tags][3:5] + [c for c in cases if 'split' in c.tags][:1]),
         'model_outcomes': kinds, 'unmodelled': kinds.get('unm', 0),
-        'model_vs_impl_disagreements': sum(1 for r in results if r['corr']),
+        'model_vs_impl_disagreements': sum(1 for r in results if r['corr']) + sum(1 for f in f_rx if f['kind'] == 'corr'),
+        'parse_regex_family': dict(st_rx, rows_checked=nt_rx),
     }
     return {'coverage': cov, 'failures': failures}
